@@ -250,3 +250,102 @@ def cache_history(ctx, k):
                     custom = c
     cache.clear_cache()
     GlobalCache()['xsec_interpolation'] = None
+
+
+class _TextFile(_DummyFile):
+    """file double for line-oriented readers (readline / readlines)"""
+    def __init__(self, lines):
+        self.lines = list(lines)
+        self.pos = 0
+
+    def readline(self):
+        if self.pos >= len(self.lines):
+            return ''
+        self.pos += 1
+        return self.lines[self.pos - 1]
+
+    def readlines(self):
+        return list(self.lines)
+
+
+@harness('C14', 'cia_formats',
+         quick=[dict(case='interp'), dict(case='zero_below'), dict(case='same_ranges')],
+         thorough=[dict(case='interp', npts=3), dict(case='zero_above'), dict(case='zero_below', npts=3), dict(case='same_ranges', npts=3)],
+         functions=FUNCS + ['taurex.cia.hitrancia:HitranCIA.load_hitran_file', 'taurex.cia.hitrancia:HitranCIA.read_header',
+                            'taurex.cia.hitrancia:HitranCIA.fill_gaps', 'taurex.cia.hitrancia:HitranCIA.compute_final_grid',
+                            'taurex.cia.hitrancia:HitranCiaGrid.fill_temperature', 'taurex.cia.picklecia:PickleCIA._load_pickle_file',
+                            'taurex.cia.cia:CIA.cia', 'taurex.cia.hitrancia:HitranCIA.compute_cia', 'taurex.cia.picklecia:PickleCIA.compute_cia'],
+         stubs=STUBS, shard_depth=4, max_paths=60000,
+         outside=['more blocks / ranges than listed', 'HITRAN files whose ranges interleave'])
+def cia_formats(ctx, case, npts=2):
+    """Real HitranCIA loader on token lines (two wavenumber ranges A < B, three temperatures, per-temperature blocks;
+    depending on `case` range B lacks the middle temperature / the lowest / the highest, or has all of them) vs the real
+    PickleCIA loader on the equivalent table: same temperature grid, same sorted wavenumber grid, coefficients converted
+    cm^5 -> m^5 (x 1e-10), negative entries floored at 0, missing temperatures filled by linear interpolation inside
+    the range's own temperatures and by zero outside; cia(T) agrees for a symbolic T."""
+    import taurex.cia.hitrancia as hc
+    import taurex.cia.picklecia as pc
+    T = ctx.increasing('temp', 3, gt=0)
+    wA = ctx.increasing('wnA', npts, gt=0)
+    wB = ctx.increasing('wnB', npts, gt=0)
+    ctx.assume(wA[npts - 1] < wB[0])
+    have_B = {'interp': [0, 2], 'zero_below': [1, 2], 'zero_above': [0, 1], 'same_ranges': [0, 1, 2]}[case]
+    # coefficients: non-negative except one entry of range A and one whole block of range B (a block whose entries are
+    # ALL negative is the interesting case for the flooring), which keeps the number of sign forks small
+    sA = np.empty((3, npts), dtype=object if ctx.sym else float)
+    sB = np.empty((3, npts), dtype=object if ctx.sym else float)
+    for k in range(3):
+        for i in range(npts):
+            free_a = (k == 1 and i == 0)
+            free_b = (k == have_B[0])
+            sA[k, i] = ctx.real('sigA_%d_%d' % (k, i), hint=(-1, 5)) if free_a else ctx.real('sigA_%d_%d' % (k, i), ge=0, hint=(0, 5))
+            sB[k, i] = ctx.real('sigB_%d_%d' % (k, i), hint=(-1, 5)) if free_b else ctx.real('sigB_%d_%d' % (k, i), ge=0, hint=(0, 5))
+    tok, fl = _tokens(ctx, None)
+    lines = []
+    # blocks in a scrambled temperature order (the loader sorts)
+    for (rng, w, s, ks) in (('A', wA, sA, [1, 0, 2]), ('B', wB, sB, list(reversed(have_B)))):
+        for k in ks:
+            lines.append('H2-He %s %s %d %s %s' % (tok(w[0]), tok(w[npts - 1]), npts, tok(T[k]), tok(1.0)))
+            for i in range(npts):
+                lines.append('%s %s' % (tok(w[i]), tok(s[k, i])))
+    with patched(hc, open=lambda *a, **k: _TextFile(lines), float=fl):
+        h = hc.HitranCIA('/nonexistent/H2-He_2011.cia')
+
+    def conv(x):
+        v = x * 1e-10
+        return ctx.ite(ctx.lt(v, 0.0), 0.0, v)
+    # the equivalent physical table
+    exp = np.empty((3, 2 * npts), dtype=object if ctx.sym else float)
+    for k in range(3):
+        for i in range(npts):
+            exp[k, i] = conv(sA[k, i])
+            if k in have_B:
+                exp[k, npts + i] = conv(sB[k, i])
+    for k in range(3):
+        if k not in have_B:
+            lo, hi = min(have_B), max(have_B)
+            for i in range(npts):
+                if lo < k < hi:
+                    a, b = conv(sB[lo, i]), conv(sB[hi, i])
+                    exp[k, npts + i] = a + (b - a) * (T[k] - T[lo]) / (T[hi] - T[lo])
+                else:
+                    exp[k, npts + i] = 0.0
+    wn_all = np.concatenate([wA, wB])
+    with patched(pc, pickle=fake_pickle(dict(wno=wn_all, t=T, xsecarr=exp)), open=lambda *a, **k: _DummyFile()):
+        p = pc.PickleCIA('/nonexistent/H2-He.db')
+    ctx.goal('pair_name', h.pairName == 'H2-He' and p.pairName == 'H2-He')
+    ctx.goal('shapes', np.shape(h._xsec_grid) == (3, 2 * npts) and len(h.temperatureGrid) == 3 and len(h.wavenumberGrid) == 2 * npts)
+    if np.shape(h._xsec_grid) != (3, 2 * npts):
+        return
+    for k in range(3):
+        ctx.goal('temperature[%d]' % k, ctx.eq(h.temperatureGrid[k], T[k]))
+    for j in range(2 * npts):
+        ctx.goal('wavenumber[%d]' % j, ctx.eq(h.wavenumberGrid[j], wn_all[j]))
+    for k in range(3):
+        for j in range(2 * npts):
+            ctx.goal('table[%d,%d]' % (k, j), ctx.eq(h._xsec_grid[k, j], exp[k, j], scale=None if ctx.sym else 1e-12))
+    Tq = ctx.real('T', gt=0, hint=(0.5, 4))
+    a, b = np.asarray(h.cia(Tq)), np.asarray(p.cia(Tq))
+    ctx.goal('cia_len', a.shape == b.shape == (2 * npts,))
+    for j in range(2 * npts):
+        ctx.goal('same_cia[%d]' % j, ctx.eq(a[j], b[j], scale=None if ctx.sym else 1e-12))
